@@ -558,7 +558,7 @@ BUILTIN_FUNCS = {"isinstance": isinstance, "abs": abs, "bool": bool, "sum": sum,
                  "map": lambda f, *its: [f(*a) for a in zip(*its)], "filter": lambda f, it: [x for x in it if (f(x) if f is not None else x)],
                  "range": lambda *a: list(range(*a)), "ord": ord, "chr": chr,
                  # pure formatting / conversion builtins on plain values (numbers, str, bytes): delegated to CPython
-                 "format": lambda v, spec="": _plain_format(v, spec), "oct": oct, "bin": bin, "ascii": ascii, "pow": pow, "bytearray": bytearray, "frozenset": frozenset}
+                 "format": lambda v, spec="": _plain_format(v, spec), "partial": lambda f_, *a, **k: (lambda *b, **kk: f_(*a, *b, **k, **kk)), "oct": oct, "bin": bin, "ascii": ascii, "pow": pow, "bytearray": bytearray, "frozenset": frozenset}
 
 
 def _plain_format(v, spec=""):
@@ -1467,6 +1467,148 @@ def norm_method(ctx, rel: str, clsname: str, name: str, keep=()):
     if not fs:
         raise Abstain(f"{clsname}.{name} vanished during normalisation")
     return fs[0]
+
+
+def subst_local_temps(ctx, fn):
+    """In place on a CLONED function: local names that merely name a value are replaced by that value at their uses, so rules can judge what is computed rather than how it is
+    called.  A name qualifies when it has exactly one plain assignment in the function (no other binding of any kind) and
+      (a) its value is an attribute chain rooted at ``self`` / a parameter (``response = self.response``; ``code = response.code`` after (a) was applied to ``response``) and no
+          path from the assignment to a use stores / deletes that very chain, or
+      (b) its value is any other expression without side-channel constructs and the name is read exactly once (``failure = Failure(X(...))`` followed by ``d.errback(failure)``).
+    The assignment statement itself stays (harmless for the rules).  Returns the number of substitutions."""
+    from sa.props._lib_c import clone, set_parents
+    total = 0
+    while hasattr(ctx, "_ctx"):          # proxies: the CFG cache lives in the real context
+        ctx = ctx._ctx
+    for _round in range(60):
+        binds = {}
+        for n in walk_local(fn):
+            tg = []
+            if isinstance(n, ast.Assign):
+                tg = [(t, n) for t in n.targets]
+            elif isinstance(n, (ast.AugAssign, ast.AnnAssign)):
+                tg = [(n.target, None)]
+            elif isinstance(n, (ast.For, ast.AsyncFor)):
+                tg = [(n.target, None)]
+            elif isinstance(n, (ast.With, ast.AsyncWith)):
+                tg = [(i.optional_vars, None) for i in n.items if i.optional_vars is not None]
+            elif isinstance(n, ast.ExceptHandler) and n.name:
+                binds.setdefault(n.name, []).append(None)
+            elif isinstance(n, (ast.Import, ast.ImportFrom)):
+                for a_ in n.names:
+                    binds.setdefault((a_.asname or a_.name).split(".")[0], []).append(None)
+            elif isinstance(n, ast.NamedExpr):
+                tg = [(n.target, None)]
+            elif isinstance(n, (ast.Global, ast.Nonlocal)):
+                for nm in n.names:
+                    binds.setdefault(nm, []).append(None)
+            elif isinstance(n, ast.Delete):
+                tg = [(t, None) for t in n.targets]
+            for t, st in tg:
+                if isinstance(t, ast.Name):
+                    binds.setdefault(t.id, []).append(st if (st is not None and len(st.targets) == 1) else None)
+                else:
+                    for x in ast.walk(t):
+                        if isinstance(x, ast.Name) and isinstance(x.ctx, (ast.Store, ast.Del)):
+                            binds.setdefault(x.id, []).append(None)
+        # names bound in nested functions / comprehensions are other variables unless declared nonlocal there: be conservative and skip names they bind
+        nested_binds = set()
+        for n in ast.walk(fn):
+            if n is not fn and isinstance(n, (ast.FunctionDef, ast.AsyncFunctionDef, ast.Lambda)):
+                a = n.args
+                nested_binds |= {x.arg for x in a.args + a.kwonlyargs + getattr(a, "posonlyargs", [])}
+                for x in ast.walk(n):
+                    if isinstance(x, ast.Name) and isinstance(x.ctx, ast.Store):
+                        nested_binds.add(x.id)
+        fa = fn.args
+        params = {x.arg for x in fa.args + fa.kwonlyargs + getattr(fa, "posonlyargs", [])} | ({fa.vararg.arg} if fa.vararg else set()) | ({fa.kwarg.arg} if fa.kwarg else set())
+
+        def chain_root(e):
+            while isinstance(e, ast.Attribute):
+                e = e.value
+            return e.id if isinstance(e, ast.Name) else None
+        cands = []
+        for name, sts in binds.items():
+            if len(sts) != 1 or sts[0] is None or name in params or name in nested_binds:
+                continue
+            st = sts[0]
+            v = st.value
+            if any(isinstance(x, (ast.Yield, ast.YieldFrom, ast.Await, ast.NamedExpr, ast.Lambda, ast.Starred)) for x in ast.walk(v)):
+                continue
+            loads = [x for x in ast.walk(fn) if isinstance(x, ast.Name) and x.id == name and isinstance(x.ctx, ast.Load)]
+            if not loads:
+                continue
+            if isinstance(v, ast.Attribute) and chain_root(v) is not None and (chain_root(v) == "self" or chain_root(v) in params):
+                cands.append((name, st, v, loads, "chain"))
+            elif not isinstance(v, (ast.Name, ast.Constant)) and len(loads) == 1 and not any(isinstance(x, ast.Name) and x.id == name for x in ast.walk(v)):
+                cands.append((name, st, v, loads, "single"))
+        if not cands:
+            break
+        g = ctx.cfg(fn)
+        done = 0
+        for name, st, v, loads, kind in cands:
+            sid = g.ids_of(st)
+            if not sid:
+                continue
+            ok = True
+            if kind == "chain":
+                text = src(v)
+                killers = g.ids(lambda x: x.kind == "stmt" and x.ast is not st and any(
+                    isinstance(y, ast.Attribute) and isinstance(y.ctx, (ast.Store, ast.Del)) and (src(y) == text or text.startswith(src(y) + ".")) for y in ast.walk(x.ast)))
+                for ld in loads:
+                    uid = g.ids_of(ld)
+                    if not uid or (killers and any(g.path(sid, [k], strict=True) is not None and g.path([k], uid, strict=True) is not None for k in killers)):
+                        ok = False
+                        break
+            else:
+                uid = g.ids_of(loads[0])
+                # the single use must follow the assignment on every path to it, and nothing in between may be reordered past: require the use in the very next statement(s) of the same block
+                ok = bool(uid) and all(g.must_precede(sid, [u], exc=False) is None for u in uid)
+            if not ok:
+                continue
+
+            class R(ast.NodeTransformer):
+                def visit_Name(self, nm):
+                    if nm.id == name and isinstance(nm.ctx, ast.Load):
+                        return ast.copy_location(clone(v), nm)
+                    return nm
+
+                def visit_Assign(self, a):
+                    if a is st:
+                        return a
+                    return self.generic_visit(a)
+            R().visit(fn)
+            done += 1
+            break          # bindings / CFG changed: recompute
+        if not done:
+            break
+        total += done
+        ast.fix_missing_locations(fn)
+        set_parents(fn, getattr(fn, "_parent", None))
+        try:
+            ctx._cfgs = {k: c for k, c in ctx._cfgs.items() if k[0] != id(fn)}
+        except AttributeError:
+            pass
+        if total > 40:
+            break
+    return total
+
+
+_TEMP_VIEWS: Dict[int, tuple] = {}
+
+
+def temp_view(ctx, fn):
+    """a clone of ``fn`` with its naming temporaries substituted (cached per function object)"""
+    from sa.props._lib_c import clone, set_parents
+    hit = _TEMP_VIEWS.get(id(fn))
+    if hit is not None and hit[0] is fn:
+        return hit[1]
+    c = clone(fn)
+    set_parents(c, getattr(fn, "_parent", None))
+    ast.fix_missing_locations(c)
+    subst_local_temps(ctx, c)
+    _TEMP_VIEWS[id(fn)] = (fn, c)
+    return c
 
 
 def parent_map(root):
